@@ -1382,6 +1382,11 @@ int ov_raw_seek(OggVorbis_File *vf,ogg_int64_t pos){
         ogg_stream_reset_serialno(&work_os,serialno);
         vf->ready_state=STREAMSET;
         firstflag=(pagepos<=vf->dataoffsets[link]);
+      }else if(pagepos<=vf->dataoffsets[vf->current_link]){
+        /* already set to this link (eg, seekable open of a chained
+           stream just parsed a later link's headers): the first page
+           rule applies all the same */
+        firstflag=1;
       }
 
       ogg_stream_pagein(&vf->os,&og);
